@@ -75,6 +75,46 @@ class Host(HostBase):
                 return ClassV(c.nested[name])
         return None
 
+    def lazy_constructor_attr(self, v: Inst, name: str, node: Any) -> Optional[AV]:
+        """A harness-made instance (attributes set by hand, constructor not run) is asked for an attribute that its
+        class's constructor assigns.  The assignment is evaluated on demand with each constructor parameter bound to
+        the same-named attribute; if that is not possible the cell is undecidable (never an AttributeError finding:
+        the real object would have the attribute)."""
+        for ci in v.cls.mro():
+            init = ci.methods.get("__init__")
+            if init is None:
+                continue
+            for st in ast.walk(init.node):
+                tgt = val = None
+                if isinstance(st, ast.Assign) and len(st.targets) == 1:
+                    tgt, val = st.targets[0], st.value
+                elif isinstance(st, ast.AnnAssign) and st.value is not None:
+                    tgt, val = st.target, st.value
+                if not (isinstance(tgt, ast.Attribute) and tgt.attr == name and isinstance(tgt.value, ast.Name) and tgt.value.id == init.node.args.args[0].arg):
+                    continue
+                params = {a.arg for a in init.node.args.args[1:] + init.node.args.kwonlyargs}
+                needed = {n.id for n in ast.walk(val) if isinstance(n, ast.Name) and n.id in params}
+                if not all(p in v.attrs for p in needed):
+                    raise self.unsupported(node, f"harness-made {v.cls.name} has no value for '{name}', which its constructor computes from {sorted(needed - set(v.attrs))}")
+                from .absint import Frame
+
+                fr = Frame(init, init.module)
+                fr.self_av = v
+                fr.locals[init.node.args.args[0].arg] = v
+                for p_ in needed:
+                    fr.locals[p_] = v.attrs[p_]
+                env_ = v.attrs.get("env")
+                cfg = self.i.compile_time_config(env_) if isinstance(env_, Inst) and env_.cls.name == "JSONPathEnvironment" else None
+                try:
+                    r = self.i.eval(val, fr)
+                finally:
+                    if cfg is not None:
+                        env_.attrs.clear()
+                        env_.attrs.update(cfg)
+                v.attrs[name] = r
+                return r
+        return None
+
     def getattr(self, v: AV, name: str, node: Any = None) -> AV:
         if isinstance(v, Inst):
             if name in v.attrs:
@@ -94,6 +134,10 @@ class Host(HostBase):
                     return HostMethod(v, name)
             if name == "__class__":
                 return ClassV(v.cls)
+            if not v.constructed:
+                r = self.lazy_constructor_attr(v, name, node)
+                if r is not None:
+                    return r
             raise self.raise_("AttributeError", f"{v.cls.name} object has no attribute {name}", node)
         if isinstance(v, ClassV):
             ci = v.ci
